@@ -13,7 +13,7 @@ import vlib
 
 LEVEL = "model_checking"
 
-DEFECTS = ["SharedMatchSet", "EmptyServerName", "IfGivenForRequire", "PlainWhenNotReady", "SkipVerifyLeftOn", "StaleOnEqualHash"]
+DEFECTS = ["SharedMatchSet", "EmptyServerName", "IfGivenForRequire", "PlainWhenNotReady", "SkipVerifyLeftOn", "StaleOnEqualHash", "InspectorLagsUpdate"]
 
 
 def mismatches(txt):
